@@ -38,6 +38,15 @@ def shuffle_ps (z : α) (a b : List α) (imm : Nat) : List α :=
 def loadl_pi (z : α) (x : List α) (a : Nat → α) (o : Nat) : List α := [a o, a (o + 1), pick z x 2, pick z x 3]
 def load_ss (z : α) (a : Nat → α) (o : Nat) : List α := [a o, z, z, z]
 def setzero (z : α) (n : Nat) : List α := List.replicate n z
+/-- `_mm_maskload_ps(p, mask)`: selected lanes from memory, the others zeroed -/
+def maskload (z : α) (a : Nat → α) (o : Nat) (sel : List Bool) : List α :=
+  (List.range sel.length).map fun l => if sel.getD l false then a (o + l) else z
+/-- `_mm_mask_loadu_ps(src, k, p)`: selected lanes from memory, the others from `src` -/
+def mask_loadu (z : α) (src : List α) (a : Nat → α) (o : Nat) (sel : List Bool) : List α :=
+  (List.range sel.length).map fun l => if sel.getD l false then a (o + l) else pick z src l
+/-- `_mm_maskstore_ps(p, mask, v)` / `_mm_mask_storeu_ps(p, k, v)`: only the selected lanes are stored -/
+def maskstore (z : α) (o : Nat) (sel : List Bool) (r : List α) : List (Nat × α) :=
+  (List.range sel.length).filterMap fun l => if sel.getD l false then some (o + l, pick z r l) else none
 
 /-- `_MM_TRANSPOSE4_PS` (xmmintrin.h) -/
 def MM_TRANSPOSE4_PS (z : α) (r0 r1 r2 r3 : List α) : List α × List α × List α × List α :=
@@ -102,5 +111,14 @@ def finalCells (ws : List (Nat × α)) (n : Nat) : List (Option α) := (List.ran
 def transposed (a : Nat → α) (n : Nat) : List (Option α) := (List.range (n * n)).map fun p => some (a ((p % n) * n + p / n))
 
 def allBelow (xs : List Nat) (n : Nat) : Bool := xs.all fun x => decide (x < n)
+
+/-- diagnosis of a kernel run on lane tokens: the cells of the `n×n` result that do not hold the transposed source
+    cell, as `(cell, token found (n*n = a zeroed lane, none = never stored), token expected)`, and the stores that
+    fall outside the result -/
+def badCells (ws : List (Nat × Nat)) (n : Nat) : List (Nat × Option Nat × Nat) × List Nat :=
+  ((List.range (n * n)).filterMap fun p =>
+      let want := (p % n) * n + p / n
+      if lastWrite ws p == some want then none else some (p, lastWrite ws p, want),
+   (ws.map (·.1)).filter fun p => decide (n * n ≤ p))
 
 end Fastor.Intr
